@@ -555,6 +555,7 @@ func TestC13(t *testing.T) {
 				stats.Label("skipped")
 			}
 			stats.NonTrivial(sig + fmt.Sprintf("/B/%s#%d", park.Syscall, park.When))
+			stats.EvalN(len(obs)) // one execution per stopped reader
 			stats.Label("mode.reader_parked")
 		} else {
 			var parks int
@@ -563,6 +564,7 @@ func TestC13(t *testing.T) {
 			if skipped != "" {
 				stats.Label("writer.failed_or_skipped")
 			} else {
+				stats.EvalN(parks) // every stop of the writer with its reads is an execution
 				stats.LabelN("writer_stops", parks)
 				stats.LabelN("reads_during_writes", len(obs))
 				for i := 0; i < parks; i++ {
@@ -715,6 +717,7 @@ func TestC03Conc(t *testing.T) {
 			rt.Fatalf("C03 violated: %v", viol)
 		}
 		stats.Eval()
+		stats.EvalN(landed)
 		stats.LabelN("readers_stopped_across_the_writer", landed)
 		if landed > 0 {
 			stats.NonTrivial(fmt.Sprintf("%s/%s/%s#%d/big=%v/tornbig=%v", writer.Kind, fieldSig(writer), park.Syscall, park.When, big > 0, torn > 1000))
